@@ -171,7 +171,7 @@ def judge_eval(ctx, case, r, m):
 def eval_suite(ctx, name, lines, res, mode='eval'):
     if not lines: return
     real = run_sharded(HBIN, mode, lines)
-    model = run_sharded(MBIN, 'eval', lines)
+    model = run_sharded(MBIN, 'ast' if mode == 'ast' else 'eval', lines)
     assert len(real) == len(model) == len(lines), (name, len(real), len(model), len(lines))
     info = collections.Counter()
     for ln, rl, ml in zip(lines, real, model):
@@ -185,7 +185,7 @@ def eval_suite(ctx, name, lines, res, mode='eval'):
         res.stats['rfc_' + str(m.get('rfc'))] += 1
         res.stats['real_' + status_of(r)] += 1
         if j['nontrivial']:
-            res.nontrivial.add(chash([c.get('q'), c.get('doc')])); info['nonempty'] += 1
+            res.nontrivial.add(chash([c.get('q', c.get('ast')), c.get('doc')])); info['nonempty'] += 1
         if j['corr']:
             res.corr_fail.append({'suite': name, 'mode': mode, 'case': c, 'real': r, 'model': m}); info['corr_fail'] += 1
         v = j['verdict']
@@ -197,7 +197,7 @@ def eval_suite(ctx, name, lines, res, mode='eval'):
         elif v.startswith('skip'):
             res.stats[v] += 1
         elif j['nontrivial'] and len(res.samples) < 4 and not j['corr']:
-            res.samples.append({'suite': name, 'q': c.get('q'), 'doc': c.get('doc')})
+            res.samples.append({'suite': name, 'q': c.get('q', c.get('ast')), 'doc': c.get('doc')})
     res.suite_info.append({'suite': name, **info})
 
 
@@ -482,6 +482,7 @@ def run(ctx, round_no=0):
         eval_suite(ctx, 'random', g('gen_eval.py', seed, 12000 * S), res)
         if p == 'C03': eval_suite(ctx, 'paths-of-all-nodes', g('gen_paths.py', seed, 3000 * S), res)
         if p == 'C01': parse_suite(ctx, 'parser-ast', g('gen_abnf.py', seed, 5000 * S), res)
+        if p == 'C01': eval_suite(ctx, 'programmatic-asts', g('gen_ast.py', seed, 5000 * S), res, mode='ast')
     elif p in ('C04', 'C05', 'C10', 'C11', 'C14'):
         n = {'C04': 14000, 'C05': 10000, 'C10': 8000, 'C11': 0, 'C14': 10000}[p] * S
         if p == 'C04' and S > 3: n = 0
@@ -502,12 +503,14 @@ def run(ctx, round_no=0):
         parse_suite(ctx, 'token-soup', g('gen_parse.py', seed, 15000 * S), res)
     elif p == 'C08':
         res.rule = ('all parser strings of C06/C07 plus integer extremes in every integer position, scalar/empty documents and nesting ladders, run in isolated '
-                    'worker processes with overflow checks; outcome must be Ok/Err (no panic, abort, timeout); evaluation of a parsed query must be Ok')
+                    'worker processes with overflow checks; outcome must be Ok/Err (no panic, abort, timeout); evaluation of a parsed query must be Ok; '
+                    'plus programmatically built queries (random ASTs incl. shapes the parser cannot produce, integers in the I-JSON range)')
         if first: parse_suite(ctx, 'corpus', corpus_lines_raw('parse.txt'), res)
         if first: eval_suite(ctx, 'corpus-eval', corpus_lines('eval.jsonl', p), res)
         parse_suite(ctx, 'abnf-sentences+mutants', g('gen_abnf.py', seed, 8000 * S), res)
         parse_suite(ctx, 'token-soup', g('gen_parse.py', seed, 8000 * S), res)
         eval_suite(ctx, 'extremes', g('gen_extreme.py', seed, 6000 * S), res)
+        eval_suite(ctx, 'programmatic-asts', g('gen_ast.py', seed, 6000 * S), res, mode='ast')
         eval_suite(ctx, 'random', g('gen_eval.py', seed, 6000 * S), res)
         if first: ladder_suite(ctx, 'nesting-ladders', gen('gen_ladder.py', ctx.tier), res)
     elif p == 'C09':
@@ -601,6 +604,7 @@ def replay(ctx, path):
             lines = [json.dumps({'group': 0, 'q': c['q'], 'doc': c['doc'], 'tdoc': c['tdoc']}), json.dumps({'group': 0, 'q': c['q_equivalent'], 'doc': c['doc'], 'tdoc': c['tdoc']})]
             group_suite(ctx, 'replay', lines, res)
         else: eval_suite(ctx, 'replay', [json.dumps(c, ensure_ascii=False)], res)
+    elif mode == 'ast': eval_suite(ctx, 'replay', [json.dumps({**c, 'tdoc': tag(c['doc'])}, ensure_ascii=False)], res, mode='ast')
     elif mode == 'generic': generic_suite(ctx, 'replay', [json.dumps({**c, 'tdoc': tag(c['doc'])}, ensure_ascii=False)], res)
     elif mode == 'parse':
         if isinstance(c, dict): ladder_suite(ctx, 'replay', [json.dumps(c)], res)
